@@ -19,7 +19,12 @@ Section SingleTotal.
   Variable Pm : M -> Prop.
   Hypothesis Pm_empty : Pm (mempty D).
   Variable Bc : nat.
-  Hypothesis H_bind : forall m ks inc, Pm m -> exists l, bind_all D h m ks inc = Ok l /\ length l <= Bc /\ Forall Pm l.
+  (** the key lists handed to bind_all: the missing bindings of one constraint's
+      arguments, and sub-lists of the requested keys *)
+  Variable okks : list K -> Prop.
+  Hypothesis okks_amb : forall c fuel keys, In c cs -> amb D fuel (cargs c) = Ok keys -> okks keys.
+  Hypothesis okks_req : forall fuel reqk f, requested D fuel extra cs = Ok reqk -> okks (filter f reqk).
+  Hypothesis H_bind : forall m ks inc, Pm m -> okks ks -> exists l, bind_all D h m ks inc = Ok l /\ length l <= Bc /\ Forall Pm l.
   Hypothesis H_sat : forall c m, In c cs -> Pm m -> exists b, sat_or_false D h c m = Ok b.
   Hypothesis H_retain : forall fuel reqk m, requested D fuel extra cs = Ok reqk -> Pm m -> exists m', mretain D reqk m = Ok m'.
 
@@ -64,7 +69,8 @@ Section SingleTotal.
     cbn [single_loop]. destruct queue as [|[[|c rest] m] q]; [eauto| |].
     - (* an item without constraints left *)
       destruct (Hq ([], m) (or_introl eq_refl)) as [Hm _]. cbn [snd] in Hm.
-      destruct (H_bind m (filter (fun k => match mget D m k with None => true | Some _ => false end) reqk) false Hm) as [bs [-> [_ HF]]].
+      destruct (H_bind m (filter (fun k => match mget D m k with None => true | Some _ => false end) reqk) false Hm
+                  (okks_req fuel0 reqk _ Hreq)) as [bs [-> [_ HF]]].
       cbn [rbind].
       assert (Hr : exists bs', rmapM (mretain D reqk) bs = Ok bs').
       { destruct (rmapM_total (mretain D reqk) bs) as [r [Er _]]; [|eauto].
@@ -74,8 +80,8 @@ Section SingleTotal.
       + cbn [qmeasure fold_right fst length W] in Hf. fold (qmeasure q) in Hf. lia.
     - destruct (Hq (c :: rest, m) (or_introl eq_refl)) as [Hm Hi]. cbn [snd fst] in Hm, Hi.
       assert (Hc : In c cs) by (apply Hi; now left).
-      destruct (amb_total c (S f) Hc ltac:(lia)) as [keys ->]. cbn [rbind].
-      destruct (H_bind m keys false Hm) as [cands [-> [Hl HF]]]. cbn [rbind].
+      destruct (amb_total c (S f) Hc ltac:(lia)) as [keys Ek]. rewrite Ek. cbn [rbind].
+      destruct (H_bind m keys false Hm (okks_amb c (S f) keys Hc Ek)) as [cands [-> [Hl HF]]]. cbn [rbind].
       destruct (filter_satb_total c Hc cands HF) as [ok [-> [Hlo HFo]]]. cbn [rbind].
       apply IH.
       + intros x Hx. apply in_app_or in Hx as [Hx|Hx]; [apply Hq; now right|].
